@@ -909,9 +909,16 @@ func runDoOnce(kind string, hooks bool, flusher string, reqSpec string, script s
 		followUp(func() (packet.Response, error) { return c.Do(context.Background(), req) })
 		closeHangs = closeBlocks(c.Close)
 	}()
+	// the watchdog: the call itself ends within the read timeout; the follow-up calls made on the same client (up to about
+	// sixteen waits of one read timeout when the machine is so busy that the short timeouts were scaled up) are part of
+	// what is waited for
+	budget := 90*time.Second + readTimeout
+	if readTimeout < 10*time.Second {
+		budget = 90*time.Second + 20*readTimeout
+	}
 	select {
 	case <-done:
-	case <-time.After(90*time.Second + readTimeout):
+	case <-time.After(budget):
 		return "HANG", "-", "-", false
 	}
 	outcome := ""
